@@ -261,7 +261,13 @@ class Report:
             "vacuity": {"canaries": self.canaries, "canaries_failed_as_required": self.canaries_ok,
                         "covers_sat": self.covers},
             "samples": self.samples or [o.to_json() for o in self.obls[:3]],
-            "explanation": self.explanation,
+            "explanation": self.explanation or (
+                "Contract-based deductive check: %d named proof obligations were generated from the current "
+                "/repo source by this run (%d discharged by %s, %d shape-bounded ones reported separately and "
+                "not counted as proved, %d matched by open known findings). Which parts of the property these "
+                "obligations decide and which parts are not decidable by this technique is stated in "
+                "MANIFEST.json (level_claimed.text, level_note) and DESIGN.md section 11.5."
+                % (n_proof_obl, n_dis, "/".join(sorted(backends)) or "-", n_bnd, len(known_hits))),
             "notes": self.notes,
             "obligation_list": [o.to_json() for o in self.obls],
             # generic fallback keys (measured): every obligation is a distinct case
